@@ -189,8 +189,8 @@ theorem exists_key_of_isort_eq {xs ys : List Rep} (h : isort K.lt (xs.map key) =
   obtain ⟨y, hy, e⟩ := List.mem_map.1 ((mem_isort _ _ _).1 this)
   exact ⟨y, hy, e.symm⟩
 
-theorem attrs_den_congr {P : Rep → Prop} (ih : ∀ x y, P x → P y → key x = key y → den x = den y) :
-    ∀ (l l' : List (String × Rep)), (∀ p ∈ l, P p.2) → (∀ q ∈ l', P q.2) → attrsK l = attrsK l' →
+theorem attrs_den_congr {P Q : Rep → Prop} (ih : ∀ x y, P x → Q y → key x = key y → den x = den y) :
+    ∀ (l l' : List (String × Rep)), (∀ p ∈ l, P p.2) → (∀ q ∈ l', Q q.2) → attrsK l = attrsK l' →
       l.map (fun p => (p.1, den p.2)) = l'.map (fun p => (p.1, den p.2))
   | [], [], _, _, _ => rfl
   | [], _ :: _, _, _, h => by simp [attrsK] at h
@@ -205,8 +205,8 @@ theorem attrs_den_congr {P : Rep → Prop} (ih : ∀ x y, P x → P y → key x 
       attrs_den_congr ih l l' (fun p hp => hl p (List.mem_cons_of_mem _ hp))
         (fun q hq => hl' q (List.mem_cons_of_mem _ hq)) (by simpa [attrsK] using hrest)⟩
 
-theorem opts_den_congr {P : Rep → Prop} (ih : ∀ x y, P x → P y → key x = key y → den x = den y) :
-    ∀ (vs ws : List (Option Rep)), (∀ x, some x ∈ vs → P x) → (∀ y, some y ∈ ws → P y) →
+theorem opts_den_congr {P Q : Rep → Prop} (ih : ∀ x y, P x → Q y → key x = key y → den x = den y) :
+    ∀ (vs ws : List (Option Rep)), (∀ x, some x ∈ vs → P x) → (∀ y, some y ∈ ws → Q y) →
       vs.map (fun o => optKey (o.map key)) = ws.map (fun o => optKey (o.map key)) →
       vs.map (Option.map den) = ws.map (Option.map den)
   | [], [], _, _, _ => rfl
@@ -229,5 +229,270 @@ theorem opts_den_congr {P : Rep → Prop} (ih : ∀ x y, P x → P y → key x =
       | some y =>
         simp only [Option.map_some, Option.some.injEq] at hk ⊢
         exact ih x y (hv x (by simp)) (hw y (by simp)) hk
+
+theorem isort_eq_symm_mem {xs ys : List Rep} (h : isort K.lt (xs.map key) = isort K.lt (ys.map key))
+    {y : Rep} (hy : y ∈ ys) : ∃ x ∈ xs, key x = key y := by
+  obtain ⟨x, hx, e⟩ := exists_key_of_isort_eq h.symm hy
+  exact ⟨x, hx, e.symm⟩
+
+theorem mapInt_inj : ∀ {s t : List Int}, s.map K.int = t.map K.int → s = t
+  | [], [], _ => rfl
+  | [], _ :: _, h => by simp at h
+  | _ :: _, [], h => by simp at h
+  | a :: as, b :: bs, h => by
+    simp only [List.map_cons, List.cons.injEq, K.int.injEq] at h
+    rw [h.1, mapInt_inj h.2]
+
+/-- members of two lists whose sorted keys agree have the same meanings -/
+theorem den_mem_congr {xs ys : List Rep} {P Q : Rep → Prop}
+    (ih : ∀ x y, P x → Q y → key x = key y → den x = den y)
+    (hx : ∀ x ∈ xs, P x) (hy : ∀ y ∈ ys, Q y)
+    (h : isort K.lt (xs.map key) = isort K.lt (ys.map key)) (v : V) : v ∈ xs.map den ↔ v ∈ ys.map den := by
+  constructor
+  · intro hv
+    obtain ⟨x, hxm, rfl⟩ := List.mem_map.1 hv
+    obtain ⟨y, hym, e⟩ := exists_key_of_isort_eq h hxm
+    exact List.mem_map.2 ⟨y, hym, (ih x y (hx x hxm) (hy y hym) e).symm⟩
+  · intro hv
+    obtain ⟨y, hym, rfl⟩ := List.mem_map.1 hv
+    obtain ⟨x, hxm, e⟩ := isort_eq_symm_mem h hym
+    exact List.mem_map.2 ⟨x, hxm, ih x y (hx x hxm) (hy y hym) e⟩
+
+theorem key_sound : ∀ (a : Rep), nodupNames a = true → ∀ b, nodupNames b = true → key a = key b → den a = den b := by
+  apply depth_induction
+  intro a ih na b nb hk
+  have hkind : kind a = kind b := by rw [← kindOf_key a, ← kindOf_key b, hk]
+  have hc := kind_eq_ctor hkind
+  -- the induction hypothesis in the shape the list lemmas want
+  have IH : ∀ x y, (depth x < depth a ∧ nodupNames x = true) → nodupNames y = true → key x = key y → den x = den y :=
+    fun x y hx hy e => ih x hx.1 hx.2 y hy e
+  cases a with
+  | num x =>
+    cases b with
+    | num y => simp only [key_num, K.node.injEq, List.cons.injEq, K.int.injEq] at hk; rw [hk.2.1]
+    | _ => simp [ctorId, Old.ctorId] at hc
+  | gtuple as =>
+    cases b with
+    | gtuple bs =>
+      rw [nn_gtuple, Bool.and_eq_true] at na nb
+      have has : ∀ p ∈ as, depth p.2 < depth (Rep.gtuple as) ∧ nodupNames p.2 = true := fun p hp =>
+        ⟨depth_attr_lt hp, List.all_eq_true.1 na.2 p hp⟩
+      have hbs : ∀ p ∈ bs, nodupNames p.2 = true := fun p hp => List.all_eq_true.1 nb.2 p hp
+      rw [den_gtuple, den_gtuple]
+      by_cases hneg : kind (.gtuple as) < 0
+      · obtain ⟨x, hx, hxpos, _⟩ := kind_gtuple_neg hneg
+        obtain ⟨y, hy, hypos, _⟩ := kind_gtuple_neg (hkind ▸ hneg)
+        rw [key_gtuple_neg hx hxpos, key_gtuple_neg hy hypos] at hk
+        simp only [K.node.injEq, List.cons.injEq, K.rev.injEq] at hk
+        have e1 := negInner_some hx
+        have e2 := negInner_some hy
+        subst e1 e2
+        simp only [List.map_cons, List.map_nil]
+        rw [IH x y (has (negateTag, x) (by simp)) (hbs (negateTag, y) (by simp)) hk.2.1]
+      · rw [key_gtuple_plain hneg, key_gtuple_plain (hkind ▸ hneg)] at hk
+        simp only [K.node.injEq, List.cons.injEq] at hk
+        have hs := attrs_den_congr IH (isort byName as) (isort byName bs)
+          (fun p hp => has p ((mem_isort _ _ p).1 hp)) (fun p hp => hbs p ((mem_isort _ _ p).1 hp)) hk.2
+        have hna : ((as.map (fun p => (p.1, den p.2))).map (·.1)).Nodup := by
+          simpa [List.map_map, Function.comp_def] using na.1
+        have hnb : ((bs.map (fun p => (p.1, den p.2))).map (·.1)).Nodup := by
+          simpa [List.map_map, Function.comp_def] using nb.1
+        rw [mkTup_perm hna (((isort_perm byName as).map _).symm),
+          mkTup_perm hnb (((isort_perm byName bs).map _).symm), hs]
+    | _ => simp [ctorId, Old.ctorId] at hc
+  | charT i c =>
+    cases b with
+    | charT j d =>
+      simp only [key_charT, K.node.injEq, List.cons.injEq, K.int.injEq] at hk
+      rw [hk.2.1, hk.2.2.1]
+    | _ => simp [ctorId, Old.ctorId] at hc
+  | byteT i c =>
+    cases b with
+    | byteT j d =>
+      simp only [key_byteT, K.node.injEq, List.cons.injEq, K.int.injEq] at hk
+      rw [hk.2.1, hk.2.2.1]
+    | _ => simp [ctorId, Old.ctorId] at hc
+  | itemT i x =>
+    cases b with
+    | itemT j y =>
+      simp only [key_itemT, K.node.injEq, List.cons.injEq, K.int.injEq] at hk
+      rw [den_itemT, den_itemT, hk.2.1, IH x y ⟨by rw [depth_itemT]; omega, na⟩ nb hk.2.2.1]
+    | _ => simp [ctorId, Old.ctorId] at hc
+  | entryT k v =>
+    cases b with
+    | entryT k' v' =>
+      simp only [key_entryT, K.node.injEq, List.cons.injEq] at hk
+      rw [nn_entryT, Bool.and_eq_true] at na nb
+      rw [den_entryT, den_entryT, IH k k' ⟨by rw [depth_entryT]; omega, na.1⟩ nb.1 hk.2.1,
+        IH v v' ⟨by rw [depth_entryT]; omega, na.2⟩ nb.2 hk.2.2.1]
+    | _ => simp [ctorId, Old.ctorId] at hc
+  | empty =>
+    cases b with
+    | empty => rfl
+    | _ => simp [ctorId, Old.ctorId] at hc
+  | true_ =>
+    cases b with
+    | true_ => rfl
+    | _ => simp [ctorId, Old.ctorId] at hc
+  | generic xs =>
+    cases b with
+    | generic ys =>
+      rw [key_generic, key_generic] at hk
+      simp only [K.node.injEq, List.cons.injEq] at hk
+      rw [nn_generic] at na nb
+      rw [den_generic, den_generic]
+      exact mkSet_congr (den_mem_congr IH
+        (fun x hx => ⟨depth_mem_generic hx, List.all_eq_true.1 na x hx⟩)
+        (fun y hy => List.all_eq_true.1 nb y hy) hk.2)
+    | _ => simp [ctorId, Old.ctorId] at hc
+  | str s off =>
+    cases b with
+    | str t off' =>
+      simp only [key_str, K.node.injEq, List.cons.injEq, K.int.injEq] at hk
+      rw [hk.2.1, mapInt_inj hk.2.2]
+    | _ => simp [ctorId, Old.ctorId] at hc
+  | bytes s off =>
+    cases b with
+    | bytes t off' =>
+      simp only [key_bytes, K.node.injEq, List.cons.injEq, K.int.injEq] at hk
+      rw [hk.2.1, mapInt_inj hk.2.2]
+    | _ => simp [ctorId, Old.ctorId] at hc
+  | array vs off =>
+    cases b with
+    | array ws off' =>
+      simp only [key_array, K.node.injEq, List.cons.injEq, K.int.injEq] at hk
+      rw [nn_array] at na nb
+      rw [den_array, den_array, hk.2.1, opts_den_congr IH vs ws
+        (fun x hx => ⟨depth_mem_array hx, by simpa using List.all_eq_true.1 na (some x) hx⟩)
+        (fun y hy => by simpa using List.all_eq_true.1 nb (some y) hy) hk.2.2]
+    | _ => simp [ctorId, Old.ctorId] at hc
+  | dict m =>
+    cases b with
+    | dict m' =>
+      rw [key_dict, key_dict] at hk
+      simp only [K.node.injEq, List.cons.injEq] at hk
+      rw [nn_dict] at na nb
+      rw [den_dict, den_dict]
+      apply mkSet_congr
+      -- every entry of one dictionary has an entry with the same key in the other
+      have hentry : ∀ (m₁ m₂ : List (List Rep)),
+          (isort (fun e f => K.lt (entryHead e) (entryHead f)) (m₁.map (List.map key))).map entryKey =
+          (isort (fun e f => K.lt (entryHead e) (entryHead f)) (m₂.map (List.map key))).map entryKey →
+          ∀ e ∈ m₁, ∃ e' ∈ m₂, entryKey (e.map key) = entryKey (e'.map key) := by
+        intro m₁ m₂ h e he
+        have h1 : entryKey (e.map key) ∈ (isort (fun e f => K.lt (entryHead e) (entryHead f)) (m₁.map (List.map key))).map entryKey :=
+          List.mem_map.2 ⟨e.map key, (mem_isort _ _ _).2 (List.mem_map.2 ⟨e, he, rfl⟩), rfl⟩
+        rw [h] at h1
+        obtain ⟨ek, hek, e1⟩ := List.mem_map.1 h1
+        obtain ⟨e', he', rfl⟩ := List.mem_map.1 ((mem_isort _ _ _).1 hek)
+        exact ⟨e', he', e1.symm⟩
+      -- one direction, stated for both orders of the two dictionaries
+      have hdir : ∀ (m₁ m₂ : List (List Rep)),
+          (∀ e ∈ m₁, ∃ e' ∈ m₂, entryKey (e.map key) = entryKey (e'.map key)) →
+          (∀ e ∈ m₁, ∀ e' ∈ m₂, entryKey (e.map key) = entryKey (e'.map key) →
+            ∀ w ∈ e.tail, ∃ w' ∈ e'.tail, den (Impl.entryHeadR e) = den (Impl.entryHeadR e') ∧ den w = den w') →
+          ∀ v, v ∈ (m₁.map (List.map den)).flatMap entryV → v ∈ (m₂.map (List.map den)).flatMap entryV := by
+        intro m₁ m₂ hex hval v hv
+        obtain ⟨ed, hed, hv⟩ := List.mem_flatMap.1 hv
+        obtain ⟨e, he, rfl⟩ := List.mem_map.1 hed
+        obtain ⟨e', he', hkk⟩ := hex e he
+        cases e with
+        | nil => simp [entryV] at hv
+        | cons k ws =>
+          simp only [List.map_cons, entryV, List.mem_map] at hv
+          obtain ⟨dw, ⟨w, hw, rfl⟩, rfl⟩ := hv
+          obtain ⟨w', hw', hkd, hwd⟩ := hval (k :: ws) he e' he' hkk w (by simpa using hw)
+          refine List.mem_flatMap.2 ⟨e'.map den, List.mem_map.2 ⟨e', he', rfl⟩, ?_⟩
+          cases e' with
+          | nil => simp at hw'
+          | cons k' ws' =>
+            simp only [List.map_cons, entryV, List.mem_map]
+            refine ⟨den w', ⟨w', by simpa using hw', rfl⟩, ?_⟩
+            simp only [Impl.entryHeadR] at hkd
+            rw [hkd, hwd]
+      intro v
+      constructor
+      · apply hdir m m' (hentry m m' hk.2)
+        intro e he e' he' hkk w hw
+        simp only [entryKey, K.node.injEq, List.cons.injEq, entryHead_map, tail_map'] at hkk
+        have hhead : den (Impl.entryHeadR e) = den (Impl.entryHeadR e') := by
+          cases e with
+          | nil => simp at hw
+          | cons k ws =>
+            have hke' : nodupNames (Impl.entryHeadR e') = true := by
+              cases e' with
+              | nil => rfl
+              | cons k' ws' => exact List.all_eq_true.1 (List.all_eq_true.1 nb _ he') k' (by simp)
+            exact IH k (Impl.entryHeadR e') ⟨depth_mem_dict he (by simp), List.all_eq_true.1 (List.all_eq_true.1 na _ he) k (by simp)⟩
+              hke' hkk.1
+        obtain ⟨w', hw', e1⟩ := exists_key_of_isort_eq hkk.2.1 hw
+        exact ⟨w', hw', hhead, IH w w'
+          ⟨depth_mem_dict he (List.mem_of_mem_tail hw), List.all_eq_true.1 (List.all_eq_true.1 na _ he) w (List.mem_of_mem_tail hw)⟩
+          (List.all_eq_true.1 (List.all_eq_true.1 nb _ he') w' (List.mem_of_mem_tail hw')) e1⟩
+      · apply hdir m' m (hentry m' m hk.2.symm)
+        intro e' he' e he hkk w' hw'
+        simp only [entryKey, K.node.injEq, List.cons.injEq, entryHead_map, tail_map'] at hkk
+        have hhead : den (Impl.entryHeadR e') = den (Impl.entryHeadR e) := by
+          cases e with
+          | nil =>
+            -- the other entry has no values either: its sorted values are empty
+            have : isort K.lt (e'.tail.map key) = [] := by simpa [isort] using hkk.2.1
+            have hl : e'.tail = [] := by
+              have hlen := congrArg List.length this
+              rw [length_isort, List.length_map] at hlen
+              exact List.eq_nil_of_length_eq_zero hlen
+            rw [hl] at hw'; simp at hw'
+          | cons k ws =>
+            have hke' : nodupNames (Impl.entryHeadR e') = true := by
+              cases e' with
+              | nil => rfl
+              | cons k' ws' => exact List.all_eq_true.1 (List.all_eq_true.1 nb _ he') k' (by simp)
+            exact (IH k (Impl.entryHeadR e') ⟨depth_mem_dict he (by simp), List.all_eq_true.1 (List.all_eq_true.1 na _ he) k (by simp)⟩
+              hke' hkk.1.symm).symm
+        obtain ⟨w, hw, e1⟩ := isort_eq_symm_mem hkk.2.1.symm hw'
+        exact ⟨w, hw, hhead, (IH w w'
+          ⟨depth_mem_dict he (List.mem_of_mem_tail hw), List.all_eq_true.1 (List.all_eq_true.1 na _ he) w (List.mem_of_mem_tail hw)⟩
+          (List.all_eq_true.1 (List.all_eq_true.1 nb _ he') w' (List.mem_of_mem_tail hw')) e1).symm⟩
+    | _ => simp [ctorId, Old.ctorId] at hc
+  | relation ns rows =>
+    cases b with
+    | relation ns' rows' =>
+      rw [key_relation, key_relation] at hk
+      simp only [K.node.injEq, List.cons.injEq] at hk
+      rw [nn_relation, Bool.and_eq_true] at na nb
+      have hns : ns.Nodup := by simpa using na.1
+      have hns' : ns'.Nodup := by simpa using nb.1
+      have hrk : isort K.lt ((rows.map (Impl.rowTuple ns)).map key) = isort K.lt ((rows'.map (Impl.rowTuple ns')).map key) := by
+        simpa [key_rowTuple, Function.comp_def] using hk.2.2.2.2.1
+      have hden : ∀ (ns : List String) (rows : List (List Rep)),
+          rows.map (fun row => V.mkTup (zipNames ns (row.map den))) = (rows.map (Impl.rowTuple ns)).map den := by
+        intro ns rows
+        simp [Impl.rowTuple, den_gtuple, zipNames_map, Function.comp_def]
+      rw [den_relation, den_relation, hden, hden]
+      exact mkSet_congr (den_mem_congr IH
+        (fun t ht => by
+          obtain ⟨row, hrow, rfl⟩ := List.mem_map.1 ht
+          exact ⟨depth_rowTuple_lt hrow, nn_rowTuple hns (List.all_eq_true.1 na.2 row hrow)⟩)
+        (fun t ht => by
+          obtain ⟨row, hrow, rfl⟩ := List.mem_map.1 ht
+          exact nn_rowTuple hns' (List.all_eq_true.1 nb.2 row hrow)) hrk)
+    | _ => simp [ctorId, Old.ctorId] at hc
+  | union xs =>
+    cases b with
+    | union ys =>
+      rw [key_union, key_union] at hk
+      simp only [K.node.injEq, List.cons.injEq] at hk
+      rw [nn_union] at na nb
+      rw [den_union, den_union]
+      have hm := den_mem_congr IH
+        (fun x hx => ⟨depth_mem_union hx, List.all_eq_true.1 na x hx⟩)
+        (fun y hy => List.all_eq_true.1 nb y hy) hk.2
+      apply mkSet_congr
+      intro v
+      simp only [List.mem_flatMap]
+      constructor
+      · rintro ⟨d, hd, hv⟩; exact ⟨d, (hm d).1 hd, hv⟩
+      · rintro ⟨d, hd, hv⟩; exact ⟨d, (hm d).2 hd, hv⟩
+    | _ => simp [ctorId, Old.ctorId] at hc
 
 end Arrai.C06
